@@ -463,6 +463,10 @@ def _meta_cli(R, only):
                 R.cls("meta-cli:" + cmd)
                 out = scratch.fresh()
                 extra = ["--metadata", mf] + (["--assembly", asm] if asm else [])
+                if cmd != "cload-tabix" and (mi + (asm is None)) % 2:
+                    # HDF5 filter options given on the command line change how columns are stored, never what is read back
+                    extra += ["--storage-options", ["compression=lzf", "compression=gzip,compression_opts=1,shuffle=True", "chunks=[2]"][mi % 3]]
+                    R.cls("meta-cli:storage-options")
                 if cmd == "load":
                     args = ["load", "-f", "coo", "--temp-dir", d] + extra + [bed, coo, out]
                 elif cmd == "cload-pairs":
@@ -479,6 +483,11 @@ def _meta_cli(R, only):
                         R.mismatch("metadata-roundtrip", inner, f"got={info.get('metadata')!r} want={md!r}")
                     if info.get("genome-assembly") != (asm or "unknown"):
                         R.mismatch("assembly-roundtrip", inner, f"got={info.get('genome-assembly')!r} want={(asm or 'unknown')!r}")
+                    px = cooler.Cooler(out).pixels()[:]
+                    gotp = {(int(a), int(b)): int(c) for a, b, c in zip(px["bin1_id"], px["bin2_id"], px["count"])}
+                    wantp = {(0, 0): 3, (0, 2): 5, (1, 1): 2} if cmd == "load" else {(0, 0): 1, (1, 2): 2}
+                    if gotp != wantp or len(px) != len(wantp):
+                        R.mismatch("pixels!=input", inner, f"got={gotp} want={wantp}")
                 finally:
                     scratch.rm(out)
     scratch.rm(d)
